@@ -50,17 +50,19 @@ def user(w):
     return Obj('User', {'is_authenticated': w['authenticated'], 'is_admin': w['is_admin']})
 
 
-def login_contract(qual, user_name, admin, permission, refuse_model):
+def login_contract(qual, user_name, admin, permission, refuse_model, html=False):
     def env(w):
-        e = {'html': False, 'admin': admin, 'permission': Opaque('Group.MEDIA') if permission else None,
+        e = {'html': html, 'admin': admin, 'permission': Opaque('Group.MEDIA') if permission else None,
              'args': (), 'kwargs': {}, user_name: user(w)}
         return e
     allowed = 'authenticated' + (' and is_admin' if admin else '') + (' and in_group' if permission else '')
     models = {f'{user_name}.has_permission': lambda eng, e, a, kw: eng.world['in_group'],
-              'func': lambda eng, e, a, kw: handler(eng)}
+              'func': lambda eng, e, a, kw: handler(eng),
+              # the decision must not depend on the request method (GET / HEAD / DELETE are guarded like POST / PUT)
+              'attr:flask.request.method': lambda eng: MethodText(eng.world['has_payload'])}
     models.update(refuse_model)
     return Contract(
-        key=f'{DEC}:{qual}.decorator.decorated_function', variant=f'admin={admin},permission={permission}', props=['C15'],
+        key=f'{DEC}:{qual}.decorator.decorated_function', variant=f'admin={admin},permission={permission}' + (',html' if html else ''), props=['C15'],
         env=env, models=models,
         ensures=[('body_runs_iff_authorised', f'ran(result) == ({allowed})'),
                  ('refused_with_401', f'True if ({allowed}) else result.status == 401')],
@@ -71,7 +73,8 @@ def login_contract(qual, user_name, admin, permission, refuse_model):
 
 REFUSE_LOGIN = {'needs_login_response': lambda eng, e, a, kw: Obj('Response', {'status': 401, 'from_handler': False})}
 REFUSE_JWT = {'jsonify_no_content': lambda eng, e, a, kw: Obj('Response', {'status': a[0], 'from_handler': False})}
-LOGIN = [login_contract('login_required', 'current_user', adm, perm, REFUSE_LOGIN) for adm in (False, True) for perm in (False, True)]
+LOGIN = [login_contract('login_required', 'current_user', adm, perm, REFUSE_LOGIN, html=h) for h in (False, True)
+         for adm in (False, True) for perm in (False, True)]
 JWT_LOGIN = [login_contract('jwt_login_required', 'jwt_current_user', adm, perm, REFUSE_JWT) for adm in (False, True) for perm in (False, True)]
 
 
